@@ -169,9 +169,17 @@ Definition guards_of (reg : registry) : list string :=
   flat_map fst (r_names reg) ++ flat_map fst (r_ptrs reg).
 
 (** ** everything the translator regenerates for C13 *)
+(** how snoopy_outputregistry_dispatch turns the configured output (CFG->output) into a call *)
+Inductive dispatch_shape :=
+  | DispatchCallByName     (* CFG = snoopy_configuration_get(); return callByName(CFG->output, logMessage, CFG->output_arg); *)
+  | DispatchOther.         (* anything else: not modelled, accepted by no check *)
+
 Record registry_consts := {
   rc_sentinel : string;          (* the literal both loops of genericregistry.c compare with *)
   rc_lookup_ok : bool;           (* getCount / getIdFromName / callByName / callById recognised in the shape modelled above *)
+  rc_entries_ok : bool;          (* every function defined in the three registry files is one of the modelled entry points, and no
+                                    other source file touches the arrays: no unmodelled way from a name / id / CFG->output to a call *)
+  rc_dispatch : dispatch_shape;
   rc_ds : registry;
   rc_flt : registry;
   rc_out : registry;
@@ -198,10 +206,17 @@ Definition guards_match (c : registry_consts) : bool :=
   && subsetb (filter (fun g => negb (is_feature_guard g)) used) (rc_configure_generic c).
 
 Definition registry_consts_ok (c : registry_consts) : bool :=
-  rc_lookup_ok c
+  rc_lookup_ok c && rc_entries_ok c && match rc_dispatch c with DispatchCallByName => true | DispatchOther => false end
   && well_formed (rc_sentinel c) (rc_ds c) && well_formed (rc_sentinel c) (rc_flt c) && well_formed (rc_sentinel c) (rc_out c)
   && match r_kind (rc_ds c), r_kind (rc_flt c), r_kind (rc_out c) with Datasource, Filter, Output => true | _, _, _ => false end
   && guards_match c.
+
+(** snoopy_outputregistry_dispatch with CFG->output = configured *)
+Definition dispatch (c : registry_consts) (cfg : config) (configured : string) : outcome :=
+  match rc_dispatch c with
+  | DispatchCallByName => call (rc_sentinel c) (rc_out c) cfg configured
+  | DispatchOther => Fault
+  end.
 
 (** switching one guard off *)
 Definition switch_off (g : string) (cfg : config) : config := fun x => if String.eqb x g then false else cfg x.
